@@ -252,7 +252,7 @@ def run_twins(ctx, pydsdl, rng, workdir):
                 pydsdl.read_files([base / fa, base / fb], [base / "tgt"], allow_unregulated_fixed_port_id=True)
         except pydsdl.InvalidDefinitionError:
             return
-        except pydsdl.Error as ex:
+        except Exception as ex:  # noqa
             ctx.violation("C11/wrong-exception", "%r" % (ex,), case)
             return
         same_layout = a["kind"] == b["kind"] and a["req"] == b["req"] and (a["kind"] == "msg" or a["resp"] == b["resp"])
